@@ -39,7 +39,7 @@ Print Assumptions C20_mfs_deadlock_free.
 (** The defect of the current code (finding C20-1): File.Mode takes nodeLock.RLock and then
     calls GetNode, which takes it again.  With a writer (Chmod's setNodeData) announcing
     in between, both are stuck for ever: a reachable deadlock. *)
-Definition w_sched : list nat := [0; 0; 0; 0; 0; 0; 0; 1; 1; 1; 1; 1; 1; 1; 1; 1].
+Definition w_sched : list nat := [0; 0; 0; 0; 0; 0; 0; 1; 1; 1; 1; 1; 1; 1].
 Theorem C20_reentrant_rlock_refuted :
   exists sched S, run (mfs_state true [[OMode 0]; [OChmod 0]]) sched = Some S /\ deadlocked S = true.
 Proof. exists w_sched. eexists. split; vm_compute; reflexivity. Qed.
